@@ -22,7 +22,7 @@ CONFIG = {'gen': ['SmbCommands'],
          'TRANS2 information levels (stub bodies). The input slices have capacity = length. distinct = distinct line; non-trivial = not '
          'the plain error outcome Allocation audit: after the parallel pass every campaign case is re-run sequentially and '
          'runtime.MemStats.TotalAlloc must stay within 256 KiB + 1 KiB per input byte (measured per chunk of 64 cases, bisected to the '
-         'single case); decimal fields are also driven to 2^24, 2^28, 2^30, 2^32, 2^63-2.',
+         'single case); decimal fields are also driven to 2^24, 2^28, 2^30, 2^32, 2^63-2. Ops that run in worker processes (LLMNR, NBNS) measure their own allocation in the worker; four ~40000-byte inputs per text op are judged one by one against 256 KiB + 64 bytes per input byte.',
  'assumptions': ['allocation: the theorems *_alloc_bound are about cost functions written beside the hand models (…AllocOf, allocCmd over '
                  'the command IR) that follow the Go make / append / copy statements in their order; they are hand transliterations like '
                  'the models and are not tied to the real code by an M op of their own (the allocation audit measures the real code; the '
